@@ -118,10 +118,33 @@ theorem take_length_add {α : Type} (a b : List α) (n : Nat) : (a ++ b).take (a
   | nil => simp
   | cons x a ih => simp only [List.cons_append, List.length_cons]; rw [Nat.add_right_comm, List.take_succ_cons, ih]
 
+/-- an index of the reference that the run finds inside the output folder and will read as it is (`idxTrusted`: not the index
+    of the always-rewritten copy of a plain-gzip reference) is complete — it was supplied by the user or written by the
+    repaired code, which only ever renames a complete file into place -/
+def IndexSound (cfg : Cfg) (fs : FS) : Prop :=
+  idxTrusted cfg = true → fs.has .refFai = true → fs.good .refFaiData = true
+
+theorem indexSound_empty (cfg : Cfg) : IndexSound cfg FS.empty := by intro _ h; simp at h
+
+theorem indexSound_of_not_trusted {cfg : Cfg} (h : idxTrusted cfg = false) (fs : FS) : IndexSound cfg fs := by
+  intro e; rw [h] at e; exact absurd e (by simp)
+
 /-- after the lock-removal step of a fresh run no lock vouches for anything it should not -/
-theorem J0_cleaned {cfg : Cfg} (fs : FS) (hs : cfg.fromSaves = true → SavesConsistent cfg fs) : J0 cfg (cleaned cfg fs) := by
+theorem J0_cleaned {cfg : Cfg} (fs : FS) (hs : cfg.fromSaves = true → SavesConsistent cfg fs) (hi : IndexSound cfg fs) :
+    J0 cfg (cleaned cfg fs) := by
   intro l hl d hd
-  rcases guarded_lock_cases hd with rfl | rfl | ⟨c, hc, rfl⟩ | ⟨c, hc, rfl⟩
+  rcases guarded_lock_cases hd with rfl | rfl | ⟨c, hc, rfl⟩ | ⟨c, hc, rfl⟩ | ⟨rfl, rfl, ht⟩
+  rotate_right
+  · have hnl : Path.refFai ∉ lockList cfg fs := by
+      intro hm
+      simp only [lockList, List.mem_append, List.mem_map, List.mem_filter] at hm
+      rcases hm with (⟨hm, _⟩ | ⟨c, _, e⟩) | ⟨c, _, e⟩
+      · split at hm <;> simp at hm
+      · cases e
+      · cases e
+    rw [FS.has, cleaned_val, if_neg hnl] at hl
+    rw [FS.good, cleaned_other cfg fs rfl]
+    exact hi ht hl
   · cases hm : cfg.fromSaves with
     | false => rw [(cleaned_bam_locks hm fs).1] at hl; exact absurd hl (by simp)
     | true =>
@@ -154,10 +177,10 @@ theorem J0_cleaned {cfg : Cfg} (fs : FS) (hs : cfg.fromSaves = true → SavesCon
     first: `k ≥ |locks found| + 2`), and resumed: the resumed run completes and every final file equals that of the
     uninterrupted run on `fs0` -/
 theorem resume_correct_from {cfg : Cfg} (wf : WF cfg) (ord ord' : List Path) (hord : ord.Nodup) (hord' : ord'.Nodup)
-    (fs0 : FS) (hs : cfg.fromSaves = true → SavesConsistent cfg fs0) (k : Nat)
+    (fs0 : FS) (hs : cfg.fromSaves = true → SavesConsistent cfg fs0) (hi : IndexSound cfg fs0) (k : Nat)
     (hk : (lockList cfg fs0).length + 2 ≤ k) : verdictFrom fixed cfg ord ord' fs0 k = .equal := by
   obtain ⟨hevs, hok0, hfs0⟩ := run_split wf ord fs0
-  have hJ0 := J0_cleaned fs0 hs
+  have hJ0 := J0_cleaned fs0 hs hi
   have hcl : lockList cfg (cleaned cfg fs0) = [] := lockList_cleaned cfg fs0
   have hsv1 : cfg.fromSaves = true → SavesOK cfg (cleaned cfg fs0) := fun e =>
     savesOK_frame (hs e).1 (cleaned_other cfg fs0 rfl) (fun _ => cleaned_other cfg fs0 rfl) (fun _ => cleaned_other cfg fs0 rfl)
@@ -199,22 +222,23 @@ theorem resume_correct_from {cfg : Cfg} (wf : WF cfg) (ord ord' : List Path) (ho
 
 /-- the output folder already holds the remains of an earlier (killed or finished) run with other options: any leftovers -/
 theorem resume_correct_dirty_folder {cfg : Cfg} (wf : WF cfg) (hm : cfg.fromSaves = false) (ord ord' : List Path)
-    (hord : ord.Nodup) (hord' : ord'.Nodup) (fs0 : FS) (k : Nat) (hk : (lockList cfg fs0).length + 2 ≤ k) :
+    (hord : ord.Nodup) (hord' : ord'.Nodup) (fs0 : FS) (hi : IndexSound cfg fs0) (k : Nat)
+    (hk : (lockList cfg fs0).length + 2 ≤ k) :
     verdictFrom fixed cfg ord ord' fs0 k = .equal :=
-  resume_correct_from wf ord ord' hord hord' fs0 (fun e => by rw [hm] at e; exact absurd e (by simp)) k hk
+  resume_correct_from wf ord ord' hord hord' fs0 (fun e => by rw [hm] at e; exact absurd e (by simp)) hi k hk
 
 /-- `--read_assignments`: run from kept save files (complete; any stale `_processed` locks, statistics files or other
     leftovers next to them), kill, resume -/
 theorem resume_correct_read_assignments {cfg : Cfg} (wf : WF cfg) (hm : cfg.fromSaves = true) (ord ord' : List Path)
-    (hord : ord.Nodup) (hord' : ord'.Nodup) (fs0 : FS) (hs : SavesConsistent cfg fs0) (k : Nat)
+    (hord : ord.Nodup) (hord' : ord'.Nodup) (fs0 : FS) (hs : SavesConsistent cfg fs0) (hi : IndexSound cfg fs0) (k : Nat)
     (hk : (lockList cfg fs0).length + 2 ≤ k) : verdictFrom fixed cfg ord ord' fs0 k = .equal :=
-  resume_correct_from wf ord ord' hord hord' fs0 (fun _ => hs) k hk
+  resume_correct_from wf ord ord' hord hord' fs0 (fun _ => hs) hi k hk
 
 /-- **full-strength property** (fresh output folder, BAM input): kill the first run after any `k ≥ 2` events, resume:
     the resumed run completes and every final file equals that of the uninterrupted run -/
 theorem resume_correct {cfg : Cfg} (wf : WF cfg) (hm : cfg.fromSaves = false) (ord ord' : List Path) (hord : ord.Nodup)
     (hord' : ord'.Nodup) (k : Nat) (hk : 2 ≤ k) : verdict fixed cfg ord ord' k = .equal := by
-  have := resume_correct_dirty_folder wf hm ord ord' hord hord' FS.empty k (by rw [lockList_empty]; simpa using hk)
+  have := resume_correct_dirty_folder wf hm ord ord' hord hord' FS.empty (indexSound_empty cfg) k (by rw [lockList_empty]; simpa using hk)
   exact this
 
 /-- safety half: a resumed run never exits successfully with different, truncated or missing results -/
@@ -434,7 +458,7 @@ example : verdict fixed cfg3 ord3 ord3 1 = .fail := by decide +kernel
 -- `.params`), and save files with a stale `_processed` lock (one lock to remove, kill point 3)
 example : (lockList cfg1 leftover1).length + 2 ≤ 4 ∧ verdictFrom fixed cfg1 ord1 ord1 leftover1 4 = .equal :=
   ⟨by decide, resume_correct_dirty_folder (cfg := cfg1) ⟨by decide, by decide, by decide, fun _ => Iff.rfl, fun _ _ h => h⟩ rfl
-      ord1 ord1 (by decide) (by decide) leftover1 4 (by decide)⟩
+      ord1 ord1 (by decide) (by decide) leftover1 (indexSound_of_not_trusted rfl _) 4 (by decide)⟩
 
 theorem saves1Stale_consistent : SavesConsistent cfgS saves1Stale := by
   refine ⟨⟨by decide, ?_⟩, ?_⟩
@@ -443,6 +467,6 @@ theorem saves1Stale_consistent : SavesConsistent cfgS saves1Stale := by
 
 example : (lockList cfgS saves1Stale).length + 2 ≤ 3 ∧ verdictFrom fixed cfgS ord1 ord1 saves1Stale 3 = .equal :=
   ⟨by decide, resume_correct_read_assignments (cfg := cfgS) ⟨by decide, by decide, by decide, fun _ => Iff.rfl, fun _ _ h => h⟩ rfl
-      ord1 ord1 (by decide) (by decide) saves1Stale saves1Stale_consistent 3 (by decide)⟩
+      ord1 ord1 (by decide) (by decide) saves1Stale saves1Stale_consistent (indexSound_of_not_trusted rfl _) 3 (by decide)⟩
 
 end IsoVerif.Props.C07
